@@ -1,4 +1,5 @@
 import Nstd.Server.LemmasC14F
+import Nstd.Server.BatchC14
 /-
   C14 — property theorems about the transition-system model of `Server::run()` (ModelC14.lean).
 
@@ -11,8 +12,11 @@ import Nstd.Server.LemmasC14F
 
   OPEN (not proved; fairness / real time — see the evidence notes):
    * ready_eventually_dispatched: under a fair kernel every registered ready socket is eventually
-     dispatched (the model gives the safety half: one buffered event per poll, FIFO, pruned only by
-     set/remove — `dispatch_only_registered_kinds`, `buffered_events_are_registered`).
+     dispatched.  Proved: one buffered event per poll, FIFO (`poll_delivers_buffered_first`), the batch only
+     shrinks until the kernel is asked again (`poll_step_drains_batch`, `batch_only_shrinks_outside_poll`),
+     what the kernel reports is buffered in order (`poll_buffers_reported`), only registered kinds are
+     dispatched.  Not proved: that run() reaches the next poll (needs timer intervals > 0 and callback scripts
+     that do not re-queue a closed client forever) and the kernel's fairness itself.
    * interrupt() from a second thread is modelled as two moves (`intrBegin`: test-and-set of the flag under
      the mutex, `intrEnd`: write of the event descriptor) that interleave with the steps of run() in any
      way; weak-memory effects on the unlocked read of `_interrupted` in run() are not modelled.
@@ -203,6 +207,22 @@ theorem poll_buffers_reported (s : St) (inp : PollIn) (e : Id × Flags) (r : Lis
   unfold pollStep
   rw [h]
   simp [ha, hi]
+
+/-- progress half of ready_eventually_dispatched (1): a poll step with a non-empty pending batch hands out its
+    oldest entry and leaves (a pruned part of) the rest — so after at most `|batch|` poll steps the batch is empty
+    and the kernel is asked again; an entry leaves the batch only by being dispatched or by set()/remove() -/
+theorem poll_step_drains_batch (ms : List Move) (inp : PollIn) (o : Outcome) (now tmo : Int) (e : Id × Flags)
+    (r : List (Id × Flags)) (hpc : (reach ms).pc = .poll now tmo) (hsel : (reach ms).selected = e :: r) :
+    (pollStep (reach ms) inp).2 = some e ∧
+    (step (reach ms) inp o).1.selected.length ≤ r.length ∧
+    ∀ j f', (j, f') ∈ (step (reach ms) inp o).1.selected → ∃ f, (j, f) ∈ r ∧ f'.sub f := by
+  refine ⟨by rw [poll_delivers_buffered_first _ inp e r hsel], ?_⟩
+  exact poll_step_drains (reach ms) inp o now tmo e r hpc hsel
+
+/-- progress half (2): timer and closing steps never add an entry or a flag to the pending batch -/
+theorem batch_only_shrinks_outside_poll (ms : List Move) (inp : PollIn) (o : Outcome)
+    (h : ∀ now tmo, (reach ms).pc ≠ .poll now tmo) : Shrinks (reach ms) (step (reach ms) inp o).1 :=
+  step_shrinks_outside_poll (reach ms) inp o h
 
 /-- the registration of every client of every reachable state is (read unless suspended) + (write iff backlog) -/
 theorem client_interest (ms : List Move) (i : Id) (c : ClientS) (reg : Flags)
